@@ -31,13 +31,22 @@ def looks_fatal(rc, stderr):
     return rc is not None and rc != 0 and (rc < 0 or any(k in (stderr or "") for k in FATAL_MARKS))
 
 
-def journal_env(ctx, env=None):
+HANG_MARK = "has not returned after"       # harness/journal.go (exit 5): one call pending for two minutes in a bulk stage
+
+
+def looks_hung(rc, stderr):
+    return rc == 5 and HANG_MARK in (stderr or "")
+
+
+def journal_env(ctx, env=None, hang_monitor=True):
     """environment for one harness process: every call of an exported function is journalled (arguments, per goroutine)"""
     ctx._jn = getattr(ctx, "_jn", 0) + 1
     jp = os.path.join(ctx.scratch, "journal-%d.bin" % ctx._jn)
     e = dict(os.environ if env is None else env)
     if not os.environ.get("VERIF_NOJOURNAL"):
         e["VERIF_JOURNAL"] = jp
+        if hang_monitor:
+            e["VERIF_HANG_MONITOR"] = "1"
     return e, jp
 
 
@@ -72,6 +81,37 @@ def after_harness(ctx, name, rc, stderr, jp):
     a call that kills that process both times is a reproduced violation ("crash") and ends the check.  Anything else is left to the
     caller (an infrastructure problem, exit 2)."""
     try:
+        if looks_hung(rc, stderr):
+            # one call did not return within two minutes: each pending call is run alone with 60 s (the first hit once more with
+            # 120 s); a call that does not return is reported ("hang"); the journalled arguments are < 64 KB
+            hung = []
+            for n, r in enumerate(journal_candidates(jp)[:64]):
+                mf = os.path.join(ctx.scratch, "hang-cand-%d.json" % n)
+                args = [bytes.fromhex(h) for h in r["args"]]
+                m = {"what": "hang", "fn": r["fn"], "rawhex": r["args"], "expr": args[0].decode("utf-8", "replace"),
+                     "list": [a.decode("utf-8", "replace") for a in args[1:]],
+                     "expected": "the call returns (a result or an error)", "source": name}
+                with open(mf, "w") as fh:
+                    json.dump(m, fh)
+                stuck = 0
+                for limit in ((60, 120) if not hung else (60,)):      # the first hit is confirmed by a second, longer run
+                    try:
+                        subprocess.run([ctx.harness, "run1", "-event", mf, os.path.join(ctx.scratch, "hang-trace.ndjson")],
+                                       capture_output=True, text=True, timeout=limit)
+                    except subprocess.TimeoutExpired:
+                        stuck += 1
+                        continue
+                    break
+                if stuck == (2 if not hung else 1):
+                    m["observed"] = "alone in a fresh process the call does not return within %s" % ("60 s, and again not within 120 s" if not hung else "60 s")
+                    hung.append(m)
+                    if len(hung) >= 2:
+                        break
+            if hung:
+                ctx.mismatches += hung
+                ctx.stages.append({"stage": name, "kind": "ABORTED: a call of the code under test did not return", "calls_reproduced_alone": len(hung)})
+                raise Crashed(name)
+            return
         if not looks_fatal(rc, stderr):
             return
         found = []
@@ -403,7 +443,7 @@ def finish(ctx, relevant, level="model_checking", extra_cov=None, rule=None):
     for m in ctx.mismatches:
         m.setdefault("property", ctx.prop)
         m["property"] = ctx.prop
-        if m["what"] not in relevant and m["what"] not in ("panic", "crash", "unstable-result", "result-overwritten"):
+        if m["what"] not in relevant and m["what"] not in ("panic", "crash", "hang", "unstable-result", "result-overwritten"):
             foreign.append(m)
             continue
         hit = next((e for e in known if finding_matches(e, m)), None)
